@@ -1193,6 +1193,12 @@ int _vnadata_load_touchstone(vnadata_internal_t *vdip, FILE *fp,
 		    tps.tps_filename, tps.tps_line);
 		goto out;
 	    }
+	    if (!(tps.u.tps_double > 0.0) || isinf(tps.u.tps_double)) {
+		_vnadata_error(vdip, VNAERR_SYNTAX, "%s (line %d) error: "
+			"reference impedance after R must be positive",
+		    tps.tps_filename, tps.tps_line);
+		goto out;
+	    }
 	    tps.tps_z0 = tps.u.tps_double;
 	    if (next_token(&tps, F_NONE) == -1) {
 		goto out;
